@@ -245,7 +245,7 @@ type XGen struct {
 	SeqShape   bool // C04 domain: text alone or ahead of the child elements; <= 1 comment, PI, directive per element
 }
 
-var xmlNames = []string{"a", "b", "c", "item", "k", "A", "Item", "a-b", "x_y", "list", "n1", "a.b", "a-b-c", "X-y-Z"}
+var xmlNames = []string{"a", "b", "c", "item", "k", "A", "Item", "a-b", "x_y", "list", "n1", "a.b", "a-b-c", "X-y-Z", "br", "link", "meta", "_ref"}
 var xmlAttrNames = []string{"id", "x", "a", "Type", "data-v", "k", "lang", "data-v-2", "ID"}
 var xmlTexts = []string{"hello", "x<y", "R&D", "\"q\"", "it's", "]]>", "&amp;", "&#x41;", "a b", " pad ", "1", "3.5", "true", "<![CDATA[", "é", "日本", "&", "<", ">", "-5", "tRuE", "NaN", "1e3", "0x1F", "\ttab", "a&b<c>d\"e'f", "x]]", "&lt;tag&gt;", "00", "T", "f", "1e19", "18446744073709551616", "-3e25", "1000000", "1e6", "9007199254740993", "0.1", "1e-7", "a  b", "l1\nl2", "x \t y", "+12.5", "+3", "C:\\tmp\\", "a\\b", "100%", "%d%s", "12345678901234567", "1234567.8901234567", "-12345678901234567", "1.2345678901234567e-5"}
 
@@ -497,7 +497,7 @@ func (r *Rng) decOpt(castOn bool) DecOpt {
 	}
 	o.Lower, o.Snake, o.AsMap, o.SeqNum, o.KeepSpace = r.P(25), r.P(25), r.P(25), r.P(20), r.P(25)
 	if r.P(15) {
-		o.KeyPrefix = r.Pick([]string{"%", "&", "~", "+"})
+		o.KeyPrefix = r.Pick([]string{"%", "&", "~", "+", "_"})
 	}
 	o.EscDec = r.P(20)
 	if castOn {
@@ -587,4 +587,21 @@ func leafTexts(doc []byte) []string {
 		}
 	}
 	return out
+}
+
+// hasNamePrefix: some element of the tree has a name that begins with pfx (such documents are outside
+// the round-trip domain when pfx is the attribute prefix).
+func hasNamePrefix(n *XNode, pfx string) bool {
+	if n == nil || pfx == "" {
+		return false
+	}
+	if n.Kind == 'N' && strings.HasPrefix(n.Name, pfx) {
+		return true
+	}
+	for _, k := range n.Kids {
+		if hasNamePrefix(k, pfx) {
+			return true
+		}
+	}
+	return false
 }
